@@ -13,19 +13,26 @@ _cnt = itertools.count()
 
 class Defs:
     """definitional side constraints introduced by spec functions (floor-division witnesses)"""
-    stack = [[]]
+    stack = [([], [])]
 
     @classmethod
     def push(cls):
-        cls.stack.append([])
+        cls.stack.append(([], []))
 
     @classmethod
     def pop(cls):
+        """(definitional constraints, divisor-non-zero side obligations)"""
         return cls.stack.pop()
 
     @classmethod
     def add(cls, c):
-        cls.stack[-1].append(c)
+        cls.stack[-1][0].append(c)
+
+    @classmethod
+    def nonzero(cls, d):
+        # a floor-division witness is only definitional when the divisor is non-zero: the caller must
+        # prove this separately, otherwise the definitions would be unsatisfiable and the VC vacuous
+        cls.stack[-1][1].append(d != 0)
 
 
 def sym(*vs):
@@ -104,20 +111,43 @@ def iabs(a):
     return ite(a >= 0, a, -a) if sym(a) else abs(a)
 
 
+_fdiv_cache = {}
+
+
 def fdiv(x, d):
-    """Python floor division; d must be non-zero (caller's obligation)"""
+    """Python floor division; the divisor being non-zero is a side obligation (Defs.nonzero).
+    Witnesses are cached per (x, d) term pair: q and r are functions of x and d, so every occurrence of
+    the same division -- in a contract used modularly and in the postcondition being proved -- shares them."""
     if not sym(x, d):
         return x // d
-    if not sym(d) and d > 0:
+    xs = x if sym(x) else z3.IntVal(x)
+    ds = d if sym(d) else z3.IntVal(d)
+    key = (xs.get_id(), ds.get_id())
+    hit = _fdiv_cache.get(key)
+    if hit is None:
         q = z3.Int(f"sq!{next(_cnt)}")
         r = z3.Int(f"sr!{next(_cnt)}")
-        Defs.add(x == q * d + r)
-        Defs.add(z3.And(0 <= r, r < d))
-        return q
-    q = z3.Int(f"sq!{next(_cnt)}")
-    r = z3.Int(f"sr!{next(_cnt)}")
-    Defs.add(x == q * d + r)
-    Defs.add(z3.If(d > 0, z3.And(0 <= r, r < d), z3.And(d < r, r <= 0)))
+        cons = [xs == q * ds + r]
+        if not sym(d):
+            cons.append(z3.And(0 <= r, r < d) if d > 0 else z3.And(d < r, r <= 0))
+        else:
+            cons.append(z3.If(ds > 0, z3.And(0 <= r, r < ds), z3.And(ds < r, r <= 0)))
+            # implied linear sign facts (help the solver; each follows from the two constraints above)
+            cons.append(z3.Implies(z3.And(ds > 0, xs >= 0), q >= 0))
+            cons.append(z3.Implies(z3.And(ds > 0, xs < 0), q < 0))
+            cons.append(z3.Implies(z3.And(ds < 0, xs > 0), q < 0))
+            cons.append(z3.Implies(z3.And(ds < 0, xs <= 0), q >= 0))
+        hit = (q, cons, xs, ds)  # keep xs/ds alive so ids are not recycled
+        _fdiv_cache[key] = hit
+    q, cons = hit[0], hit[1]
+    if sym(d):
+        Defs.nonzero(ds)
+    elif d == 0:
+        raise ZeroDivisionError
+    frame = Defs.stack[-1][0]
+    for c in cons:
+        if not any(c is e for e in frame):
+            frame.append(c)
     return q
 
 
